@@ -397,6 +397,7 @@ func (s *c09srv) engine() *routeEngine {
 	})
 	e.GET("/probe", func(c context.Context, ctx *app.RequestContext) {
 		s.probe = c09ProbeDump(ctx)
+		ctx.SetBodyString("probe-body") // what the probe's response looks like on the wire is an observation too
 	})
 	startEngine(e)
 	return e
@@ -413,6 +414,17 @@ var c09Shapes = map[string]string{
 	"cl":      "POST /mut/x HTTP/1.1\r\nHost: h\r\nContent-Type: text/plain\r\nContent-Length: 16\r\n\r\nbody-of-request!",
 	"cl0":     "POST /mut/x HTTP/1.1\r\nHost: h\r\nContent-Length: 0\r\n\r\n",
 	"form":    "POST /mut/x HTTP/1.1\r\nHost: h\r\nContent-Type: application/x-www-form-urlencoded\r\nContent-Length: 7\r\n\r\nf=1&g=2",
+	"head":    "HEAD /mut/x HTTP/1.1\r\nHost: h\r\n\r\n",
+	"http10":  "GET /mut/x HTTP/1.0\r\nHost: h\r\nConnection: keep-alive\r\n\r\n",
+}
+
+// c09LastResponse: the bytes of the last response on the wire (the probe's)
+func c09LastResponse(out []byte) string {
+	i := bytes.LastIndex(out, []byte("HTTP/1.1 "))
+	if i < 0 {
+		return string(out)
+	}
+	return string(out[i:])
 }
 
 func init() {
@@ -437,7 +449,7 @@ func init() {
 			}
 			// baseline: fresh engine, fresh connection, probe only
 			base := &c09srv{}
-			serveScript(base.engine(), newScriptConn([][]byte{[]byte(c09ProbeReq)}))
+			baseOut, _ := serveScript(base.engine(), newScriptConn([][]byte{[]byte(c09ProbeReq)}))
 			var fs []Finding
 			// keep-alive: mutate then probe on the same connection
 			ka := &c09srv{progs: progs}
@@ -450,13 +462,19 @@ func init() {
 					fmt.Sscanf(strings.Split(in.S(i), ":")[2], "%d", &kaConn.writeErrAfter)
 				}
 			}
-			serveScript(e, kaConn)
+			kaOut, _ := serveScript(e, kaConn)
+			if ka.probe != "" && kaConn.writeErrAfter < 0 && c09LastResponse(kaOut) != c09LastResponse(baseOut) {
+				fs = append(fs, Finding{Kind: "oracle", Unit: "c09.server", Class: "probe-response-differs-on-keepalive-connection", Impl: c09LastResponse(kaOut), Expect: c09LastResponse(baseOut)})
+			}
 			if ka.probe != "" && ka.probe != base.probe {
 				fs = append(fs, Finding{Kind: "oracle", Unit: "c09.server", Class: "probe-differs-on-keepalive-connection", Impl: ka.probe, Expect: base.probe, Note: c09FirstDiff(ka.probe, base.probe)})
 			}
 			// pool: a new connection of the same engine gets the recycled context
 			ka.probe = ""
-			serveScript(e, newScriptConn([][]byte{[]byte(c09ProbeReq)}))
+			poolOut, _ := serveScript(e, newScriptConn([][]byte{[]byte(c09ProbeReq)}))
+			if c09LastResponse(poolOut) != c09LastResponse(baseOut) {
+				fs = append(fs, Finding{Kind: "oracle", Unit: "c09.server", Class: "probe-response-differs-on-new-connection", Impl: c09LastResponse(poolOut), Expect: c09LastResponse(baseOut)})
+			}
 			if ka.probe != base.probe {
 				fs = append(fs, Finding{Kind: "oracle", Unit: "c09.server", Class: "probe-differs-on-new-connection", Impl: ka.probe, Expect: base.probe, Note: c09FirstDiff(ka.probe, base.probe)})
 			}
@@ -487,7 +505,7 @@ func init() {
 				}
 			}
 			// histories of request shapes alone (read-only handlers): every sequence of up to three
-			shapes := []string{"get", "chunked", "cl", "cl0", "form"}
+			shapes := []string{"get", "chunked", "cl", "cl0", "form", "head", "http10"}
 			for _, a := range shapes {
 				t.Do(In{S("NEXT:" + a + ":0")}, true)
 				for _, b := range shapes {
